@@ -20,6 +20,19 @@ CHECKS = {
         "real": REAL_CONN, "stub": STUB_CONN,
         "assumptions": ["the packet codec itself (Encode) defines a packet's encoding (C01 is out of scope of simulation)"],
     },
+    "C19": {
+        "level": "exploration",
+        "race": True,
+        "level_text": "Seeded interleavings of 1-16 sender goroutines, a receiver and a closer on one real NetConn/BaseConn/Stream over the simulated link, with the k-th Read/Write/Close/SetReadDeadline of the carrier failing (k enumerated over the calls of the fault-free run; quick samples 4 per kind), read-deadline expiry on the virtual clock, and probes after close; run plain and under the race detector. Sampling with enumerated fault positions, not proof.",
+        "level_note": "Trusts the simrt overlay, synctest's virtual clock and the Go race detector; the carrier is TCP-like (sim/simnet) - the WebSocket carrier is not exercised by this check.",
+        "technique": "deterministic simulation: seeded sender/closer interleavings at lock granularity + carrier-call fault enumeration + virtual-clock deadlines + wire/history oracles + race detector",
+        "quick": {"runs": 5000, "race_runs": 700, "budget_s": 40, "minimise_s": 30},
+        "thorough": {"runs": 400000, "race_runs": 40000, "budget_s": 900, "minimise_s": 120},
+        "rule": "seed -> (1-16 senders with 1-6 buffered/flushed sends each of sizes 0..9000, flush delay 0..50 ms, close step, read timeout, packets from the peer); every third seed additionally ENUMERATES carrier-call failures (k-th read/write/close/deadline call). Oracles: every packet on the wire is intact, was sent, appears once and in its sender's order; everything accepted before Close is on the wire before the carrier is closed; sends after close/error fail (flushed at once, buffered after the flush delay); Receive returns what had arrived, then fails; no goroutine is still blocked after one virtual hour. Non-trivial = >=2 senders with >=2 sends or a fired fault; distinct = distinct (sender order, overlap count, fault position)",
+        "probes": ["overlapping_sends", "fault_read", "fault_write", "fault_close", "fault_deadline", "closes", "timer_advances", "packets_received", "post_close_probes", "sends_failed"],
+        "real": REAL_CONN, "stub": STUB_CONN,
+        "assumptions": ["a failing carrier Close still closes (as net.Conn implementations do)", "no write-side backpressure: the simulated socket buffer is unbounded"],
+    },
     "C05": {
         "level": "exploration",
         "level_text": "Seeded search over operation histories and over interleavings of 2-16 caller goroutines pre-empted at every lock acquisition by the seeded runtime; every query compared with a map model after every mutation, concurrent histories checked for linearizability with porcupine, result slices checked for later modification, same binary under the race detector. Sampling, not proof.",
